@@ -287,6 +287,12 @@ type state struct {
 	blocks    []string
 	seq       int
 	loopRange map[int]string
+	unroll    map[hdrKey]int // loops over a short constant literal that are unrolled: iterations so far
+}
+
+type hdrKey struct {
+	frame int
+	h     *ssa.BasicBlock
 }
 
 func (s *state) clone() *state {
@@ -303,6 +309,12 @@ func (s *state) clone() *state {
 	}
 	for k, v := range s.loopRange {
 		n.loopRange[k] = v
+	}
+	if len(s.unroll) > 0 {
+		n.unroll = make(map[hdrKey]int, len(s.unroll))
+		for k, v := range s.unroll {
+			n.unroll[k] = v
+		}
 	}
 	for k, v := range s.env {
 		n.env[k] = v
@@ -678,7 +690,10 @@ func (x *explorer) run(st *state, fr *frame, b *ssa.BasicBlock, prev *ssa.BasicB
 	}
 	if idx == 0 {
 		// loop header handling
-		if body, isHeader := x.loops(fr.fn)[b]; isHeader {
+		if body, isHeader := x.loops(fr.fn)[b]; isHeader && x.unrolling(st, fr, b, prev, body) {
+			// a range over a short literal of constants: walked element by element with concrete indices
+			x.evalPhis(st, fr, b, prev)
+		} else if isHeader {
 			// back edge?
 			for i := len(st.loops) - 1; i >= 0; i-- {
 				l := st.loops[i]
@@ -745,6 +760,63 @@ func (x *explorer) run(st *state, fr *frame, b *ssa.BasicBlock, prev *ssa.BasicB
 			x.instr(st, fr, in)
 		}
 	}
+}
+
+// unrolling: b is the header of "for i, v := range <literal of at most four constants>" (or an index loop with such
+// a constant bound): instead of summarising the loop by one symbolic iteration, the explorer walks it with the
+// concrete index, so that a test against each element reads like the chain of tests it abbreviates.
+func (x *explorer) unrolling(st *state, fr *frame, b, prev *ssa.BasicBlock, body map[*ssa.BasicBlock]bool) bool {
+	key := hdrKey{fr.id, b}
+	if prev != nil && body[prev] {
+		n, ok := st.unroll[key]
+		if !ok {
+			return false
+		}
+		if n > 8 {
+			x.overflow = true
+			return true
+		}
+		st.unroll[key] = n + 1
+		return true
+	}
+	iff, ok := b.Instrs[len(b.Instrs)-1].(*ssa.If)
+	if !ok {
+		return false
+	}
+	cmp, ok := iff.Cond.(*ssa.BinOp)
+	if !ok || cmp.Op != token.LSS {
+		return false
+	}
+	inc, ok := cmp.X.(*ssa.BinOp)
+	if !ok || inc.Op != token.ADD {
+		return false
+	}
+	phi, ok := inc.X.(*ssa.Phi)
+	if !ok || phi.Block() != b || phi.Comment != "rangeindex" {
+		return false
+	}
+	ln, ok := cmp.Y.(*ssa.Call)
+	if !ok {
+		return false
+	}
+	bi, ok := ln.Common().Value.(*ssa.Builtin)
+	if !ok || bi.Name() != "len" {
+		return false
+	}
+	lit := x.val(st, fr, ln.Common().Args[0])
+	if lit == nil || lit.Op != "lit" || len(lit.Args) == 0 || len(lit.Args) > 4 {
+		return false
+	}
+	for _, e := range lit.Args {
+		if e.Op != "const" {
+			return false
+		}
+	}
+	if st.unroll == nil {
+		st.unroll = map[hdrKey]int{}
+	}
+	st.unroll[key] = 1
+	return true
 }
 
 func (x *explorer) evalPhis(st *state, fr *frame, b, prev *ssa.BasicBlock) {
@@ -1894,6 +1966,11 @@ func (x *explorer) load(st *state, fr *frame, addr *T, ins *ssa.UnOp) *T {
 				if v, ok := st.arrays[ck][c]; ok {
 					return v
 				}
+			}
+		}
+		if base.Op == "lit" {
+			if c, ok := constIdx(addr.Args[1]); ok && c >= 0 && int(c) < len(base.Args) {
+				return base.Args[c]
 			}
 		}
 		// element of a slice: index by a range loop's index variable reads "the element"
